@@ -25,6 +25,16 @@
   includeMethod: normalised source text of `FortranReader.include` (without its docstring);
                  `Include.isIncludeStmt` / `includeName` / `look` are its reading
 
+  queueOrder   : the if/elif chain at the top of `FortranReader.__next__` that serves what is buffered before
+                 anything new is read: which buffer each branch returns from, in source order (`pending` then
+                 `docbuffer`); `nextHead` = the normalised text of that chain (the `if` statements in front of the
+                 `while` loop; the assignments to the loop's locals are not part of it); `passBackMethod` = normalised text of `FortranReader.pass_back`,
+                 `passBackFront` = it puts the line at the head of `pending` (`insert(0, line)`) rather than
+                 behind it (`append`); `readDocstring` = normalised text of `sourceform.read_docstring`
+                 (-> `PassBack.readerOrder`, `PassBack.next`, `passBack`, `collectDocs`);
+                 `splitSite` = the statements between the loop and the bottom pops (`quote_split(';', linebuffer)`,
+                 `pending.extend(...)`): `PassBack.tailRaw` / `Include.feedTailI` are their reading
+
 A construct that cannot be found or is not recognised raises (= "tie broken", never a pass).
 """
 from __future__ import annotations
@@ -286,12 +296,111 @@ def reader_queue():
             raise ValueError("FortranReader.INCLUDE_RE is not the pattern the model reads (include\\s*(?=['\"]), IGNORECASE)")
     return sites, guarded, itext, loose
 
+DOC_POP = "return self.docbuffer.pop(0)"
+DOC_TESTS = ("len(self.docbuffer) != 0", "len(self.docbuffer) > 0", "self.docbuffer")
+
+
+def queue_protocol():
+    """The chain at the top of `__next__`, `pass_back` and `read_docstring`."""
+    tree = ast.parse((common.REPO / "ford" / "reader.py").read_text())
+    classes = [n for n in tree.body if isinstance(n, ast.ClassDef) and n.name == "FortranReader"]
+    if len(classes) != 1:
+        raise ValueError("ford/reader.py: class FortranReader not found")
+    meth = {n.name: n for n in classes[0].body if isinstance(n, ast.FunctionDef)}
+    for need in ("__next__", "pass_back"):
+        if need not in meth:
+            raise ValueError(f"FortranReader.{need} not found")
+
+    def nodoc(body):
+        body = list(body)
+        if body and isinstance(body[0], ast.Expr) and isinstance(body[0].value, ast.Constant):
+            body = body[1:]
+        return body
+
+    pb = [ast.unparse(st) for st in nodoc(meth["pass_back"].body)]
+    args = [a.arg for a in meth["pass_back"].args.args]
+    if args != ["self", "line"]:
+        raise ValueError(f"FortranReader.pass_back: unexpected parameters {args}")
+    if pb == ["self.pending.insert(0, line)"]:
+        front = True
+    elif pb in (["self.pending.append(line)"], ["self.pending.insert(len(self.pending), line)"]):
+        front = False
+    else:
+        raise ValueError(f"FortranReader.pass_back: body not recognised (the model knows the queue `pending` only): {pb}")
+    body = nodoc(meth["__next__"].body)
+    loops = [i for i, st in enumerate(body) if isinstance(st, ast.While)]
+    if len(loops) != 1:
+        raise ValueError("FortranReader.__next__: expected exactly one top-level `while` loop")
+    order, text, seen_chain = [], [], False
+    for st in body[:loops[0]]:
+        if isinstance(st, ast.If) and not any(isinstance(n, ast.Return) for n in ast.walk(st)):
+            # `if len(self.pending) != 0: self.include()` (reader_queue() decides what it means)
+            text += ast.unparse(st).split("\n")
+            continue
+        if isinstance(st, ast.If):
+            if seen_chain:
+                raise ValueError("FortranReader.__next__: two chains return buffered items in front of the loop")
+            seen_chain = True
+            node, kw = st, "if "
+            while node is not None:
+                test = ast.unparse(node.test)
+                rets = [ast.unparse(b) for b in node.body if isinstance(b, ast.Return)]
+                if rets == [POP] and test in PENDING_TESTS:
+                    order.append("pending")
+                elif rets == [DOC_POP] and test in DOC_TESTS:
+                    order.append("docbuffer")
+                else:
+                    raise ValueError(f"FortranReader.__next__: unrecognised branch in front of the loop: {kw}{test}: ... {rets}")
+                text += [kw + test + ":"] + ["    " + ast.unparse(b) for b in node.body]
+                if not node.orelse:
+                    node = None
+                elif len(node.orelse) == 1 and isinstance(node.orelse[0], ast.If):
+                    node, kw = node.orelse[0], "elif "
+                else:
+                    raise ValueError("FortranReader.__next__: the chain in front of the loop ends with an `else`")
+            continue
+        if isinstance(st, ast.Assign) and len(st.targets) == 1 and isinstance(st.targets[0], ast.Name):
+            # a local of the loop (`continued = False` ...): not part of the chain, and which locals the loop keeps is
+            # an implementation choice (`done` / `while True: ... break`); their effect is tied by the step streams
+            continue
+        raise ValueError(f"FortranReader.__next__: unrecognised statement in front of the loop: {ast.unparse(st)[:80]!r}")
+    # between the loop and the pops at the bottom: the `;` split of the completed logical line
+    split_site = []
+    for st in body[loops[0] + 1:]:
+        if isinstance(st, ast.If):
+            break
+        split_site += ast.unparse(st).split("\n")
+    if not any("quote_split" in t for t in split_site):
+        raise ValueError(f"FortranReader.__next__: no quote_split between the loop and the pops: {split_site}")
+    if sorted(order) != ["docbuffer", "pending"]:
+        raise ValueError(f"FortranReader.__next__: the chain in front of the loop serves {order}, expected pending and docbuffer once each")
+    # every other use of the queue: only __next__, include and pass_back may touch it
+    users = sorted(n.name for n in classes[0].body if isinstance(n, ast.FunctionDef)
+                   and any(isinstance(a, ast.Attribute) and a.attr == "pending" for a in ast.walk(n)))
+    if users != ["__init__", "__next__", "include", "pass_back"]:
+        raise ValueError(f"FortranReader: `pending` is used by {users}")
+    stree = ast.parse((common.REPO / "ford" / "sourceform.py").read_text())
+    rd = [n for n in stree.body if isinstance(n, ast.FunctionDef) and n.name == "read_docstring"]
+    if len(rd) != 1:
+        raise ValueError("ford/sourceform.py: read_docstring not found")
+    rtext = [ln for st in nodoc(rd[0].body) for ln in ast.unparse(st).split("\n")]
+    callers = sorted({ast.unparse(n.func) for n in ast.walk(stree) if isinstance(n, ast.Call)
+                      and isinstance(n.func, ast.Attribute) and n.func.attr == "pass_back"})
+    if callers != ["source.pass_back"]:
+        raise ValueError(f"ford/sourceform.py: pass_back is called as {callers}")
+    n_calls = sum(1 for n in ast.walk(stree) if isinstance(n, ast.Call) and isinstance(n.func, ast.Attribute)
+                  and n.func.attr == "pass_back")
+    if n_calls != 1:
+        raise ValueError(f"ford/sourceform.py: pass_back is called {n_calls} times (the model knows read_docstring only)")
+    return order, text, pb, front, rtext, split_site
+
 
 def translate():
     rx = regex_sources()
     sites, guarded, itext, kw_loose = reader_queue()
     steps, nbsp, dbl = initial_steps()
     mloop = mask_loop()
+    qorder, qtext, pbtext, pbfront, rdtext, split_site = queue_protocol()
     b = lambda v: "true" if v else "false"
     lines = ["/- GENERATED by translate/c02.py from ford/reader.py and ford/sourceform.py - do not edit -/",
              "import FordModel.InitSteps",
@@ -323,8 +432,20 @@ def translate():
               "/-- `FortranReader.include` (normalised source text) -/",
               "def includeMethod : List String := ["]
     lines += ["  %s%s" % (lean_str(t), "," if i < len(itext) - 1 else "") for i, t in enumerate(itext)]
-    lines += ["]", "",
-              "end Ford.Generated.C02", ""]
+    lines += ["]", ""]
+
+    def strlist(name, doc, items):
+        out = ["/-- " + doc + " -/", "def %s : List String := [" % name]
+        out += ["  %s%s" % (lean_str(t), "," if i < len(items) - 1 else "") for i, t in enumerate(items)]
+        return out + ["]", ""]
+
+    lines += strlist("queueOrder", "which buffer each branch of the if/elif chain at the top of `FortranReader.__next__` returns from, in source order", qorder)
+    lines += strlist("nextHead", "the `if` statements in front of the `while` loop of `FortranReader.__next__` (normalised source text)", qtext)
+    lines += strlist("passBackMethod", "`FortranReader.pass_back` (normalised source text)", pbtext)
+    lines += ["/-- `pass_back` puts the line at the head of `pending` -/", "def passBackFront : Bool := %s" % b(pbfront), ""]
+    lines += strlist("readDocstring", "`ford.sourceform.read_docstring` (normalised source text)", rdtext)
+    lines += strlist("splitSite", "the statements of `FortranReader.__next__` between the `while` loop and the pops at its bottom (normalised source text): what becomes of the completed logical line", split_site)
+    lines += ["end Ford.Generated.C02", ""]
     common.write_if_changed(OUT, "\n".join(lines))
     return rx, steps, nbsp, dbl, mloop, sites, guarded
 
